@@ -467,6 +467,7 @@ def _run_property(ctx, spec):
             return _violation(ctx, spec, coverage, broken, no_input=False)
     # 3. correspondence
     known = [k for k in load_known() if k["property"] == prop]
+    printed_known = set()
     stats = {"ops": {}, "result_kinds": {}}
     viol_payload = None
     no_input = True
@@ -517,7 +518,8 @@ def _run_property(ctx, spec):
                 if props.matches_signature(k["sig"], small, r, m, s):
                     matched = k
             if matched and all(props.matches_signature(matched["sig"], cases[j], impl[j], model[j][0], model[j][1]) for j, _ in bad):
-                print(f"KNOWN-FINDING: property={prop} {matched['text']}")
+                printed_known.add(matched["sig"])
+                print(f"KNOWN-FINDING: property={prop} {matched['sig']}: {matched['text'][:200]} (observed in this run)")
             else:
                 viol_payload = {"cases": [{"case": small, "impl": r, "model": m, "spec": s, "original": line}],
                                 "kind": "impl differs from " + ("specification (property oracle)" if kind == "spec" else "implementation model"),
@@ -540,13 +542,18 @@ def _run_property(ctx, spec):
                 coverage["samples"] += res["samples"][:2]
             if res.get("known"):
                 for k in res["known"]:
-                    print(f"KNOWN-FINDING: property={prop} {k}")
+                    printed_known.add(k.split(":")[0])
+                    print(f"KNOWN-FINDING: property={prop} {k} (observed in this run)")
             if res.get("violation"):
                 viol_payload = {"cli": res["violation"], "kind": "CLI result differs from the specification"}
                 no_input = bool(res.get("no_input"))
                 break
     if spec.get("exhaustive_note") and tier == "thorough":
         coverage["exhaustive_scopes"] = spec["exhaustive_note"]
+    # every listed finding of this property is reported on every run, observed or not
+    for k in known:
+        if k["sig"] not in printed_known:
+            print(f"KNOWN-FINDING: property={prop} {k['sig']}: {k['text'][:200]} (listed; its trigger did not occur among this run's inputs)")
     if viol_payload is not None:
         if broken:
             viol_payload["broken"] = broken["broken"]
